@@ -159,6 +159,8 @@ def specs(tier):
     # string definition before / after its use
     pairs.append(("strref-before", [("string", 1, 2, 0), ("sep", 1), ("entry", 1, 1, 1, 0, False)]))
     pairs.append(("refchain", [("refchain",)]))
+    pairs.append(("idfield-ID", [("idfield", "ID")]))
+    pairs.append(("idfield-ENTRYTYPE", [("idfield", "ENTRYTYPE")]))
     for n in range(1, (5 if not big else 6) + 1):
         pairs.append((f"macroshadow-{n}", [("macroshadow", n)]))
     pairs.append(("strref-after", [("entry", 1, 1, 1, 0, False), ("sep", 1), ("string", 1, 2, 0)]))
